@@ -15,14 +15,24 @@ condition and nothing about the ORDER in which the generator tries the rules.
     List           source.List && target.List && !target.ListFixed     (slice → slice, array → slice; NEVER → array)
     Map            source.Map && target.Map
 
-(Struct, Enum, SkipCopy, UseUnderlyingTypeMethods do not apply to F-types with the two opt-in settings off.)
+(Enum, SkipCopy, UseUnderlyingTypeMethods do not apply to F-types with the two opt-in settings off.)
+
+Second stage: the fragment FS adds UNNAMED STRUCT types whose fields are all exported and have types in FS again,
+
+    FS ::= basic k | ptr FS | slice FS | array n FS | map FS FS | struct{ A₁ FS; …; Aₙ FS }
+
+with the documented Struct rule (no field settings): every TARGET field is filled from the source field of the same name
+(exact match; the first one if the model's field list has duplicates, which Go does not allow), whose pair of types must be
+convertible again; source fields without a target are ignored; a target struct without fields is always convertible.
+
+    Struct         source.Struct && target.Struct
 -/
 import Gv.Model.Types
 
 namespace Gv.Spec
 open Gv
 
-/-- membership in the fragment F -/
+/-- membership in the fragment F (struct-free) -/
 def inF : Ty → Bool
   | .basic _ => true
   | .ptr e => inF e
@@ -31,117 +41,279 @@ def inF : Ty → Bool
   | .map k v => inF k && inF v
   | _ => false
 
+mutual
+  /-- membership in the fragment FS: F plus unnamed structs with exported fields of FS-types -/
+  def inFS : Ty → Bool
+    | .basic _ => true
+    | .ptr e => inFS e
+    | .slice e => inFS e
+    | .array _ e => inFS e
+    | .map k v => inFS k && inFS v
+    | .struct fs => inFSFields fs
+    | _ => false
+  def inFSFields : Fields → Bool
+    | .nil => true
+    | .cons f t r => f.exported && inFS t && inFSFields r
+end
+
+theorem inFS_of_inF : ∀ t : Ty, inF t = true → inFS t = true
+  | .basic _, _ => by simp [inFS]
+  | .ptr e, h => by simp only [inFS]; exact inFS_of_inF e (by simpa [inF] using h)
+  | .slice e, h => by simp only [inFS]; exact inFS_of_inF e (by simpa [inF] using h)
+  | .array _ e, h => by simp only [inFS]; exact inFS_of_inF e (by simpa [inF] using h)
+  | .map k v, h => by
+    simp [inF] at h
+    simp [inFS, inFS_of_inF k h.1, inFS_of_inF v h.2]
+  | .named _, h => by simp [inF] at h
+  | .struct _, h => by simp [inF] at h
+  | .opaque _ _, h => by simp [inF] at h
+
 /-- syntactic pointer test (on F there are no named types, so this is `xtype.Type.Pointer`) -/
 def isPtrTy : Ty → Bool
   | .ptr _ => true
   | _ => false
 
-/-- number of type constructors (the measure of the fuel bound) -/
-def tySize : Ty → Nat
-  | .ptr e => tySize e + 1
-  | .slice e => tySize e + 1
-  | .array _ e => tySize e + 1
-  | .map k v => tySize k + tySize v + 1
-  | _ => 1
+mutual
+  /-- number of type constructors, a struct counting one per field on top of the field types (the measure of the fuel bound) -/
+  def tySize : Ty → Nat
+    | .ptr e => tySize e + 1
+    | .slice e => tySize e + 1
+    | .array _ e => tySize e + 1
+    | .map k v => tySize k + tySize v + 1
+    | .struct fs => fieldsSize fs + 1
+    | _ => 1
+  def fieldsSize : Fields → Nat
+    | .nil => 0
+    | .cons _ t r => tySize t + 1 + fieldsSize r
+end
 
 theorem tySize_pos (t : Ty) : 0 < tySize t := by
   cases t <;> simp [tySize]
 
-/-- no `byte` / `rune` spelling (the plan checker of C02 compares kinds literally, the generator up to these aliases) -/
-def aliasFree : Ty → Bool
-  | .basic k => k.canon == k
-  | .ptr e => aliasFree e
-  | .slice e => aliasFree e
-  | .array _ e => aliasFree e
-  | .map k v => aliasFree k && aliasFree v
-  | _ => true
+/-- the type of the (first) field called `n` -/
+def fieldTy : Fields → Str.S → Option Ty
+  | .nil, _ => none
+  | .cons f t r, n => if f.name == n then some t else fieldTy r n
 
-/-- no array is directly the element of a slice or an array (`asg` = the type itself sits at such an element position): there the
-generator fills the target by assignment without a `make`, a plan shape outside the checked structural fragment of C02 -/
-def arrayElemFree : Bool → Ty → Bool
-  | _, .ptr e => arrayElemFree false e
-  | _, .slice e => arrayElemFree true e
-  | asg, .array _ e => !asg && arrayElemFree true e
-  | _, .map k v => arrayElemFree false k && arrayElemFree false v
-  | _, _ => true
+theorem fieldTy_size : ∀ {fs : Fields} {n : Str.S} {t : Ty}, fieldTy fs n = some t → tySize t < fieldsSize fs
+  | .nil, _, _, h => by simp [fieldTy] at h
+  | .cons f t' r, n, t, h => by
+    simp only [fieldTy] at h
+    split at h
+    · cases h; simp [fieldsSize]; omega
+    · have := fieldTy_size h; simp [fieldsSize]; omega
 
-/-- **the documented rules**, `z` = useZeroValueOnPointerInconsistency -/
-inductive Convertible (z : Bool) : Ty → Ty → Prop
-  /-- Basic: both basic, of one kind (`byte`/`uint8` and `rune`/`int32` are one kind) -/
-  | basic {k k' : Kind} : k.canon = k'.canon → Convertible z (.basic k) (.basic k')
-  /-- Pointer: `*A → *B` when `A → B` -/
-  | ptrPtr {a b : Ty} : Convertible z a b → Convertible z (.ptr a) (.ptr b)
-  /-- TargetPointer: `S → *B` for a non-pointer `S` when `S → B` -/
-  | tgtPtr {s b : Ty} : isPtrTy s = false → Convertible z s b → Convertible z s (.ptr b)
-  /-- SourcePointer: `*A → T` for a non-pointer `T` needs the flag -/
-  | srcPtr {a t : Ty} : z = true → isPtrTy t = false → Convertible z a t → Convertible z (.ptr a) t
-  /-- List: slice → slice -/
-  | slice {a b : Ty} : Convertible z a b → Convertible z (.slice a) (.slice b)
-  /-- List: array → slice (the target must not be an array) -/
-  | array {n : Nat} {a b : Ty} : Convertible z a b → Convertible z (.array n a) (.slice b)
-  /-- Map: keys and values -/
-  | map {k v k' v' : Ty} : Convertible z k k' → Convertible z v v' → Convertible z (.map k v) (.map k' v')
+mutual
+  /-- no `byte` / `rune` spelling (the plan checker of C02 compares kinds literally, the generator up to these aliases) -/
+  def aliasFree : Ty → Bool
+    | .basic k => k.canon == k
+    | .ptr e => aliasFree e
+    | .slice e => aliasFree e
+    | .array _ e => aliasFree e
+    | .map k v => aliasFree k && aliasFree v
+    | .struct fs => aliasFreeFields fs
+    | _ => true
+  def aliasFreeFields : Fields → Bool
+    | .nil => true
+    | .cons _ t r => aliasFree t && aliasFreeFields r
+end
 
-/-- the decision procedure for `Convertible` (recursion on the pair, lexicographic) -/
-def convertibleB (z : Bool) (s t : Ty) : Bool :=
-  match s, t with
-  | .ptr a, .ptr b => convertibleB z a b
-  | .ptr a, .basic k => z && convertibleB z a (.basic k)
-  | .ptr a, .slice e => z && convertibleB z a (.slice e)
-  | .ptr a, .array n e => z && convertibleB z a (.array n e)
-  | .ptr a, .map k v => z && convertibleB z a (.map k v)
-  | .basic k, .ptr b => convertibleB z (.basic k) b
-  | .slice e, .ptr b => convertibleB z (.slice e) b
-  | .array n e, .ptr b => convertibleB z (.array n e) b
-  | .map k v, .ptr b => convertibleB z (.map k v) b
-  | .basic k, .basic k' => k.canon == k'.canon
-  | .slice a, .slice b => convertibleB z a b
-  | .array _ a, .slice b => convertibleB z a b
-  | .map k v, .map k' v' => convertibleB z k k' && convertibleB z v v'
-  | _, _ => false
-termination_by (s, t)
+mutual
+  /-- no array is directly the element of a slice or an array or a struct field (`asg` = the type itself sits at such a
+  position): there the generator fills the target by assignment without a `make`, a plan shape outside the checked structural
+  fragment of C02 -/
+  def arrayElemFree : Bool → Ty → Bool
+    | _, .ptr e => arrayElemFree false e
+    | _, .slice e => arrayElemFree true e
+    | asg, .array _ e => !asg && arrayElemFree true e
+    | _, .map k v => arrayElemFree false k && arrayElemFree false v
+    | _, .struct fs => arrayElemFreeFields fs
+    | _, _ => true
+  def arrayElemFreeFields : Fields → Bool
+    | .nil => true
+    | .cons _ t r => arrayElemFree true t && arrayElemFreeFields r
+end
 
-/-! ### `convertibleB` decides `Convertible` on F -/
+mutual
+  /-- every struct (of a TARGET type) has at least one field and no field name twice: the side condition of the plan checker
+  of C02 (`Nodup`), and no position where the generator takes the shortcut for two empty structs (a plain assignment) -/
+  def structsOK : Ty → Bool
+    | .ptr e => structsOK e
+    | .slice e => structsOK e
+    | .array _ e => structsOK e
+    | .map k v => structsOK k && structsOK v
+    | .struct fs => fs.length != 0 && decide ((fs.toList.map (fun (x : FieldInfo × Ty) => x.1.name)).Nodup) && structsOKFields fs
+    | _ => true
+  def structsOKFields : Fields → Bool
+    | .nil => true
+    | .cons _ t r => structsOK t && structsOKFields r
+end
 
-theorem convertibleB_sound (z : Bool) (s t : Ty) : convertibleB z s t = true → Convertible z s t := by
-  fun_induction convertibleB z s t with
-  | case1 a b ih => intro h; exact .ptrPtr (ih h)
-  | case2 a k ih => intro h; simp at h; exact .srcPtr h.1 rfl (ih h.2)
-  | case3 a e ih => intro h; simp at h; exact .srcPtr h.1 rfl (ih h.2)
-  | case4 a n e ih => intro h; simp at h; exact .srcPtr h.1 rfl (ih h.2)
-  | case5 a k v ih => intro h; simp at h; exact .srcPtr h.1 rfl (ih h.2)
-  | case6 k b ih => intro h; exact .tgtPtr rfl (ih h)
-  | case7 e b ih => intro h; exact .tgtPtr rfl (ih h)
-  | case8 n e b ih => intro h; exact .tgtPtr rfl (ih h)
-  | case9 k v b ih => intro h; exact .tgtPtr rfl (ih h)
-  | case10 k k' => intro h; exact .basic (by simpa using h)
-  | case11 a b ih => intro h; exact .slice (ih h)
-  | case12 n a b ih => intro h; exact .array (ih h)
-  | case13 k v k' v' ih2 ih1 => intro h; simp at h; exact .map (ih2 h.1) (ih1 h.2)
-  | case14 => intro h; cases h
+mutual
+  /-- **the documented rules**, `z` = useZeroValueOnPointerInconsistency -/
+  inductive Convertible (z : Bool) : Ty → Ty → Prop
+    /-- Basic: both basic, of one kind (`byte`/`uint8` and `rune`/`int32` are one kind) -/
+    | basic {k k' : Kind} : k.canon = k'.canon → Convertible z (.basic k) (.basic k')
+    /-- Pointer: `*A → *B` when `A → B` -/
+    | ptrPtr {a b : Ty} : Convertible z a b → Convertible z (.ptr a) (.ptr b)
+    /-- TargetPointer: `S → *B` for a non-pointer `S` when `S → B` -/
+    | tgtPtr {s b : Ty} : isPtrTy s = false → Convertible z s b → Convertible z s (.ptr b)
+    /-- SourcePointer: `*A → T` for a non-pointer `T` needs the flag -/
+    | srcPtr {a t : Ty} : z = true → isPtrTy t = false → Convertible z a t → Convertible z (.ptr a) t
+    /-- List: slice → slice -/
+    | slice {a b : Ty} : Convertible z a b → Convertible z (.slice a) (.slice b)
+    /-- List: array → slice (the target must not be an array) -/
+    | array {n : Nat} {a b : Ty} : Convertible z a b → Convertible z (.array n a) (.slice b)
+    /-- Map: keys and values -/
+    | map {k v k' v' : Ty} : Convertible z k k' → Convertible z v v' → Convertible z (.map k v) (.map k' v')
+    /-- Struct: every target field is covered -/
+    | struct {sfs tfs : Fields} : ConvertibleFields z sfs tfs → Convertible z (.struct sfs) (.struct tfs)
+  /-- every field of the target list has a source field of the same name with a convertible pair of types -/
+  inductive ConvertibleFields (z : Bool) : Fields → Fields → Prop
+    | nil {sfs : Fields} : ConvertibleFields z sfs .nil
+    | cons {sfs : Fields} {f : FieldInfo} {sty ty : Ty} {rest : Fields} :
+        fieldTy sfs f.name = some sty → Convertible z sty ty → ConvertibleFields z sfs rest →
+        ConvertibleFields z sfs (.cons f ty rest)
+end
 
-theorem convertibleB_complete (z : Bool) {s t : Ty} (h : Convertible z s t) : inF s = true → inF t = true → convertibleB z s t = true := by
-  induction h with
-  | basic hk => intro _ _; rw [convertibleB]; simp [hk]
-  | ptrPtr _ ih => intro hs ht; rw [convertibleB]; exact ih (by simpa [inF] using hs) (by simpa [inF] using ht)
-  | @tgtPtr s b hp _ ih =>
-    intro hs ht
-    have := ih hs (by simpa [inF] using ht)
-    cases s <;> simp [inF, isPtrTy] at hs hp <;> rw [convertibleB] <;> exact this
-  | @srcPtr a t hz hp _ ih =>
-    intro hs ht
-    have := ih (by simpa [inF] using hs) ht
-    cases t <;> simp [inF, isPtrTy] at ht hp <;> rw [convertibleB, this, hz] <;> rfl
-  | slice _ ih => intro hs ht; rw [convertibleB]; exact ih (by simpa [inF] using hs) (by simpa [inF] using ht)
-  | array _ ih => intro hs ht; rw [convertibleB]; exact ih (by simpa [inF] using hs) (by simpa [inF] using ht)
-  | map _ _ ih1 ih2 =>
-    intro hs ht; simp [inF] at hs ht
-    rw [convertibleB]; simp [ih1 hs.1 ht.1, ih2 hs.2 ht.2]
+mutual
+  /-- the decision procedure for `Convertible` (recursion on the size of the pair) -/
+  def convertibleB (z : Bool) (s t : Ty) : Bool :=
+    match s, t with
+    | .ptr a, .ptr b => convertibleB z a b
+    | .ptr a, .basic k => z && convertibleB z a (.basic k)
+    | .ptr a, .slice e => z && convertibleB z a (.slice e)
+    | .ptr a, .array n e => z && convertibleB z a (.array n e)
+    | .ptr a, .map k v => z && convertibleB z a (.map k v)
+    | .ptr a, .struct fs => z && convertibleB z a (.struct fs)
+    | .basic k, .ptr b => convertibleB z (.basic k) b
+    | .slice e, .ptr b => convertibleB z (.slice e) b
+    | .array n e, .ptr b => convertibleB z (.array n e) b
+    | .map k v, .ptr b => convertibleB z (.map k v) b
+    | .struct fs, .ptr b => convertibleB z (.struct fs) b
+    | .basic k, .basic k' => k.canon == k'.canon
+    | .slice a, .slice b => convertibleB z a b
+    | .array _ a, .slice b => convertibleB z a b
+    | .map k v, .map k' v' => convertibleB z k k' && convertibleB z v v'
+    | .struct sfs, .struct tfs => convertibleFieldsB z sfs tfs
+    | _, _ => false
+  termination_by tySize s + tySize t
+  decreasing_by
+    all_goals simp only [tySize]
+    all_goals omega
+  def convertibleFieldsB (z : Bool) (sfs tfs : Fields) : Bool :=
+    match tfs with
+    | .nil => true
+    | .cons f ty rest =>
+      (match h : fieldTy sfs f.name with
+       | some sty => convertibleB z sty ty
+       | none => false) && convertibleFieldsB z sfs rest
+  termination_by fieldsSize sfs + 1 + fieldsSize tfs
+  decreasing_by
+    · have := fieldTy_size h; simp only [fieldsSize]; omega
+    · simp only [fieldsSize]; omega
+end
+
+theorem inFS_fieldTy : ∀ {fs : Fields} {n : Str.S} {t : Ty}, inFSFields fs = true → fieldTy fs n = some t → inFS t = true
+  | .nil, _, _, _, h => by simp [fieldTy] at h
+  | .cons f t' r, n, t, hf, h => by
+    simp [inFSFields] at hf
+    simp only [fieldTy] at h
+    split at h
+    · cases h; exact hf.1.2
+    · exact inFS_fieldTy hf.2 h
+
+/-! ### `convertibleB` decides `Convertible` on FS (hence on F) -/
+
+theorem convertibleB_sound_all (z : Bool) :
+    (∀ s t, convertibleB z s t = true → Convertible z s t) ∧
+    (∀ sfs tfs, convertibleFieldsB z sfs tfs = true → ConvertibleFields z sfs tfs) := by
+  apply convertibleB.mutual_induct
+    (motive1 := fun s t => convertibleB z s t = true → Convertible z s t)
+    (motive2 := fun sfs tfs => convertibleFieldsB z sfs tfs = true → ConvertibleFields z sfs tfs)
+  · intro a b ih h; rw [convertibleB] at h; exact .ptrPtr (ih h)
+  · intro a k ih h; rw [convertibleB] at h; simp at h; exact .srcPtr h.1 rfl (ih h.2)
+  · intro a e ih h; rw [convertibleB] at h; simp at h; exact .srcPtr h.1 rfl (ih h.2)
+  · intro a n e ih h; rw [convertibleB] at h; simp at h; exact .srcPtr h.1 rfl (ih h.2)
+  · intro a k v ih h; rw [convertibleB] at h; simp at h; exact .srcPtr h.1 rfl (ih h.2)
+  · intro a fs ih h; rw [convertibleB] at h; simp at h; exact .srcPtr h.1 rfl (ih h.2)
+  · intro k b ih h; rw [convertibleB] at h; exact .tgtPtr rfl (ih h)
+  · intro e b ih h; rw [convertibleB] at h; exact .tgtPtr rfl (ih h)
+  · intro n e b ih h; rw [convertibleB] at h; exact .tgtPtr rfl (ih h)
+  · intro k v b ih h; rw [convertibleB] at h; exact .tgtPtr rfl (ih h)
+  · intro fs b ih h; rw [convertibleB] at h; exact .tgtPtr rfl (ih h)
+  · intro k k' h; rw [convertibleB] at h; exact .basic (by simpa using h)
+  · intro a b ih h; rw [convertibleB] at h; exact .slice (ih h)
+  · intro n a b ih h; rw [convertibleB] at h; exact .array (ih h)
+  · intro k v k' v' ih1 ih2 h; rw [convertibleB] at h; simp at h; exact .map (ih1 h.1) (ih2 h.2)
+  · intro sfs tfs ih h; rw [convertibleB] at h; exact .struct (ih h)
+  · intro s t h1 h2 h3 h4 h5 h6 h7 h8 h9 h10 h11 h12 h13 h14 h15 h16 h
+    rw [convertibleB] at h
+    · cases h
+    all_goals assumption
+  · intro sfs _; exact .nil
+  · intro sfs f t r ih1 ih2 h
+    rw [convertibleFieldsB] at h
+    simp only [Bool.and_eq_true] at h
+    cases hf : fieldTy sfs f.name with
+    | none => rw [hf] at h; simp at h
+    | some sty =>
+      have h1 := h.1
+      split at h1
+      · rename_i sty' hf'; rw [hf] at hf'; cases hf'; exact .cons hf (ih1 sty hf h1) (ih2 h.2)
+      · cases h1
+
+theorem convertibleB_sound (z : Bool) (s t : Ty) : convertibleB z s t = true → Convertible z s t :=
+  (convertibleB_sound_all z).1 s t
+
+mutual
+  theorem convertibleB_complete_struct (z : Bool) : ∀ {s t : Ty}, Convertible z s t → inFS s = true → inFS t = true →
+      convertibleB z s t = true
+    | _, _, .basic hk, _, _ => by rw [convertibleB]; simp [hk]
+    | _, _, .ptrPtr h, hs, ht => by
+      rw [convertibleB]; exact convertibleB_complete_struct z h (by simpa [inFS] using hs) (by simpa [inFS] using ht)
+    | s, _, .tgtPtr hp h, hs, ht => by
+      have := convertibleB_complete_struct z h hs (by simpa [inFS] using ht)
+      cases s <;> simp [inFS, isPtrTy] at hs hp <;> rw [convertibleB] <;> exact this
+    | _, t, .srcPtr hz hp h, hs, ht => by
+      have := convertibleB_complete_struct z h (by simpa [inFS] using hs) ht
+      cases t <;> simp [inFS, isPtrTy] at ht hp <;> rw [convertibleB, this, hz] <;> rfl
+    | _, _, .slice h, hs, ht => by
+      rw [convertibleB]; exact convertibleB_complete_struct z h (by simpa [inFS] using hs) (by simpa [inFS] using ht)
+    | _, _, .array h, hs, ht => by
+      rw [convertibleB]; exact convertibleB_complete_struct z h (by simpa [inFS] using hs) (by simpa [inFS] using ht)
+    | _, _, .map h1 h2, hs, ht => by
+      simp [inFS] at hs ht
+      rw [convertibleB]
+      simp [convertibleB_complete_struct z h1 hs.1 ht.1, convertibleB_complete_struct z h2 hs.2 ht.2]
+    | _, _, .struct hf, hs, ht => by
+      rw [convertibleB]; exact convertibleFieldsB_complete z hf (by simpa [inFS] using hs) (by simpa [inFS] using ht)
+  theorem convertibleFieldsB_complete (z : Bool) : ∀ {sfs tfs : Fields}, ConvertibleFields z sfs tfs →
+      inFSFields sfs = true → inFSFields tfs = true → convertibleFieldsB z sfs tfs = true
+    | _, _, .nil, _, _ => by rw [convertibleFieldsB]
+    | _, _, .cons hf h hr, hs, ht => by
+      simp [inFSFields] at ht
+      rw [convertibleFieldsB]
+      simp only [Bool.and_eq_true]
+      refine ⟨?_, convertibleFieldsB_complete z hr hs ht.2⟩
+      have := convertibleB_complete_struct z h (inFS_fieldTy hs hf) ht.1.2
+      split
+      · rename_i sty' hf'; rw [hf] at hf'; cases hf'; exact this
+      · rename_i hf'; rw [hf] at hf'; cases hf'
+end
+
+/-- **the decision procedure is exact on FS** -/
+theorem convertibleB_iff_struct (z : Bool) (s t : Ty) (hs : inFS s = true) (ht : inFS t = true) :
+    convertibleB z s t = true ↔ Convertible z s t :=
+  ⟨convertibleB_sound z s t, fun h => convertibleB_complete_struct z h hs ht⟩
+
+theorem convertibleB_complete (z : Bool) {s t : Ty} (h : Convertible z s t) (hs : inF s = true) (ht : inF t = true) :
+    convertibleB z s t = true :=
+  convertibleB_complete_struct z h (inFS_of_inF s hs) (inFS_of_inF t ht)
 
 /-- **the decision procedure is exact on F** -/
 theorem convertibleB_iff (z : Bool) (s t : Ty) (hs : inF s = true) (ht : inF t = true) :
     convertibleB z s t = true ↔ Convertible z s t :=
   ⟨convertibleB_sound z s t, fun h => convertibleB_complete z h hs ht⟩
-
 
 end Gv.Spec
